@@ -483,13 +483,19 @@ func (x *Exec) run(choose Chooser, mon Monitor, opt ExecOpts) {
 	x.Inner = inner
 	x.GV = NewGateVault(w, inner)
 
+	var wsOpts []coercion.Option
+	if opt.Boot == nil && len(sc.BootStates) > 0 {
+		opt.Boot = bootStates(sc)
+	}
 	if opt.Boot != nil {
 		if err := opt.Boot(x); err != nil {
 			panic(err)
 		}
 	}
+	if sc.NoRecovery {
+		wsOpts = append(wsOpts, coercion.WithNoRecovery())
+	}
 
-	var wsOpts []coercion.Option
 	if sc.MaxSubmitSec > 0 {
 		wsOpts = append(wsOpts, coercion.WithMaxSubmit(time.Duration(sc.MaxSubmitSec)*time.Second))
 	}
@@ -510,7 +516,7 @@ func (x *Exec) run(choose Chooser, mon Monitor, opt ExecOpts) {
 		}
 	}
 	threads := sc.Threads
-	if len(threads) == 0 {
+	if len(threads) == 0 && len(sc.BootStates) == 0 {
 		for pi := range sc.Plans {
 			threads = append(threads, []APICall{{Op: "start", Plan: pi}, {Op: "wait", Plan: pi}})
 		}
